@@ -130,8 +130,9 @@ EXTRA_FILES = [("utils/convert.py", "utils.convert")]
 
 
 class Program:
-    def __init__(self, root: Optional[str] = None, wide: bool = False):
+    def __init__(self, root: Optional[str] = None, wide: bool = False, trees: Optional[Dict[str, ast.Module]] = None):
         self.root = root or os.environ.get("SA_REPO", "/repo")
+        self.trees = trees  # pre-parsed (normalised) module trees replacing the parse of the files
         self.modules: Dict[str, ModuleInfo] = {}
         self.funcs: Dict[str, FuncInfo] = {}
         self.classes: Dict[str, ClassInfo] = {}
@@ -168,7 +169,7 @@ class Program:
             try:
                 with open(p, encoding="utf-8") as f:
                     source = f.read()
-                tree = ast.parse(source, filename=p)
+                tree = self.trees[mod] if self.trees is not None and mod in self.trees else ast.parse(source, filename=p)
             except (OSError, SyntaxError, UnicodeDecodeError) as e:
                 raise AnalysisError(f"cannot parse {p}: {e}")
             mi = ModuleInfo(mod, p, os.path.relpath(p, self.root), tree, source)
